@@ -1409,6 +1409,8 @@ func c19Mutants(doc string) []c19Mut {
 		out = append(out, c19Mut{doc + string(ch), fmt.Sprintf("append:%c", ch)})
 	}
 	out = append(out, c19Mut{doc + doc, "append:document"})
+	// nothing at all, and nothing but white space
+	out = append(out, c19Mut{"", "empty"}, c19Mut{" ", "blank"}, c19Mut{" \t\r\n", "blanks"})
 	return out
 }
 
